@@ -175,8 +175,15 @@ def huge_case(draw):
     return {"g": gs, "p": draw(gens.p_spec(n_min=1025, n_max=2600, k_min=2, k_max=5)), "x": draw(gens.x_spec(d_max=2, kinds=("normal",)))}
 
 
+@st.composite
+def huge_nk_case(draw):
+    gs = draw(objs.gemini_spec(bases=("tv", "kl", "hellinger", "chi2", "mmd"), kernel_forms=("named",)))
+    return {"g": gs, "p": draw(gens.p_spec(n_min=660, n_max=1700, k_min=26, k_max=48)), "x": draw(gens.x_spec(d_max=2, kinds=("normal",)))}
+
+
 def subs():
     return [
+        Sub("huge_nk", huge_nk_case(), oracle_large, 40, 500, "n*K^2 beyond 2^20 (n up to 1700 with K up to 48)"),
         Sub("huge_n", huge_case(), oracle_large, 80, 800, "n in (1024, 2600]: block sizes of 1024/2048 rows"),
         Sub("large_shapes", large_case(), oracle_large, 600, 12000, "n up to 320 and K up to 48 (size thresholds, blocked code paths)"),
         Sub("fdivergences", fdiv_case(), oracle_fdiv, 6000, 100000, "4 f-divergence classes x ovo (+MI shortcut)"),
